@@ -81,7 +81,8 @@ def hasDec : PyVal → Bool
   | _ => false
 
 mutual
-/-- no Number field holds a Decimal, at any depth -/
+/-- no Number field holds a Decimal and no instance holds an attribute that is not a declared
+    field, at any depth -/
 def noDecV : FieldDecl → PyVal → Bool
   | .number _, v => !hasDec v
   | .seqOf _ item _, v => (match seqLike v with | some xs => xs.all (noDecV item) | none => true)
@@ -90,7 +91,9 @@ def noDecV : FieldDecl → PyVal → Bool
   | .mapOf kf vf _, v =>
     (match v with | .dict kvs => kvs.all (fun kv => noDecV kf kv.1 && noDecV vf kv.2) | _ => true)
   | .struct _ fields _, v =>
-    (match v with | .inst _ attrs => noDecFields attrs fields | _ => true)
+    (match v with
+      | .inst _ attrs => attrs.all (fun a => (fields.map (·.1)).contains a.1) && noDecFields attrs fields
+      | _ => true)
   | .anyOf fs, v => noDecAll fs v
   | .integer _, _ => true
   | .float _, _ => true
@@ -128,8 +131,7 @@ end
 /-- instance level: no Decimal, and no attribute that is not a declared field -/
 def fplainInst (cls : FieldDecl) (x : PyVal) : Bool :=
   match cls, x with
-  | .struct _ fields _, .inst _ attrs =>
-    noDecV cls x && attrs.all fun a => (fields.map (·.1)).contains a.1
+  | .struct _ _ _, .inst _ _ => noDecV cls x
   | _, _ => false
 
 /-! ### names of the known defects (driver only) -/
@@ -224,8 +226,7 @@ def fastDefects (Mp : MapEnv) (NF : List String) (compact sn : Bool) (cls : Fiel
     let attrs := attrsOf x
     ((fdefFields NF fields)
       ++ (if strNodup names then [] else ["duplicate-field-names"])
-      ++ (if noDecV cls x then [] else ["decimal"])
-      ++ (if attrs.all (fun a => names.contains a.1) then [] else ["fast:extras-dropped"])
+      ++ (if noDecV cls x then [] else ["fast:extras-dropped"])
       ++ (if sn && fields.any (fun p => (getAttr defaults attrs p.1).isNone) then ["fast:serialize-none"] else [])
       ++ (if compact && fields.length == 1
             && !(c.required == names && !c.addl) then ["fast:compact-conditions"] else [])
